@@ -29,10 +29,10 @@ Proof. exact @ProofsS.realDyadicLazy_eq. Qed.
    over every carrier (R, floats, ...) and both storage roundings (Real64 / Real32) *)
 Theorem scalar_pairs_interchangeable : forall {A} (F : Fl A) (r32 : A -> A) (p : spair),
   ProofsS.not_abs p -> scalar_interchangeable F r32 p.
-Proof. intros A F r32 p H s. apply ProofsS.scalar_pairs_agree. exact H. Qed.
+Proof. exact (fun A F r32 p H s => ProofsS.scalar_pairs_agree F r32 p s H). Qed.
 Theorem scalar_predicates_interchangeable : forall {A} (F : Fl A) (r32 : A -> A) (p : ppair),
   predicate_interchangeable F r32 p.
-Proof. intros A F r32 p eps s. apply ProofsS.scalar_predicates_agree. Qed.
+Proof. exact (fun A F r32 p eps s => ProofsS.scalar_predicates_agree F r32 p eps s). Qed.
 (* Abs/ABS: interchangeable only when the receiver's old sign happens to pick the operand's branch *)
 Theorem ABS_interchangeable_partial : forall {A} (F : Fl A) (r32 : A -> A) c a (s : St),
   (g_sign F r32 s c = (-1)%Z /\ sign_of F (rval (s a)) = (-1)%Z) \/
@@ -77,7 +77,7 @@ Proof. exact ProofsJ.joint3C_next_emb3. Qed.
    Same world (abstraction AND coherence state of receiver and operands), same outcome kind and payload. *)
 Theorem vector_pairs_interchangeable : forall y sp p,
   ProofsV.vpair_ok sp p -> vector_interchangeable y sp p.
-Proof. intros y sp p H w. apply ProofsV.vector_pairs_agree. exact H. Qed.
+Proof. exact (fun y sp p H w => ProofsV.vector_pairs_agree y sp w p H). Qed.
 Theorem sparse_EQUALS_true_implies_Equals_partial : forall y w a b e2 w',
   step_concrete y true w (VPequals a b e2) = (w', (K_OK, [1%Z])) ->
   step_generic y true w (VPequals a b e2) = (w', (K_OK, [1%Z])).
